@@ -34,6 +34,7 @@ fn main() {
         "lookup" => drivers::lookup::run(&args),
         "join" => drivers::join::run(&args),
         "putget" => drivers::putget::run(&args),
+        "timeline" => drivers::timeline::run(&args),
         "idmath-one" => drivers::idmath::run_one(&args),
         other => {
             eprintln!("unknown driver {other}");
